@@ -82,6 +82,11 @@ func checkC16(w *World, r *Report) {
 	r.Rule("S1", 10, "sibling agreement: the five integrations produce the same verdict vector")
 	r.Rule("PS", 15, "no state outside the request: the integration packages declare no package-level variables and every ScopeMiddleware/Handle call builds its configuration from a fresh literal")
 	ruleNoPackageState(w, r, "PS")
+	r.Rule("P9", 10, "a request never hangs in CreateScope or Close: no user code (scoped initializers, constructors, Close methods) runs while a scope or provider lock is held, and the lock-order graph has no cycle")
+	r.Try(func() {
+		la := NewLockAnalysis(w)
+		reexport(w, r, "P9", func(sub *Report) { checkLockHygiene(w, sub, la) }, "R09.2i", "R09.2ii")
+	})
 	r.Rule("P8", 5, "every configured middleware runs: the integrations never identify a user callback by its code pointer (closures of one factory share it)")
 	r.Try(func() { ruleNoCallbackIdentity(w, r, "P8") })
 	r.Rule("P7", 3, "a scope whose creation fails is closed before the error reaches the middleware's error handler (ownership of the cancel function and of the partial scope)")
